@@ -46,6 +46,8 @@ EXTRA = {
     "indi/message/def_parts.py": ["C15"],
     "indi/message/base.py": ["C05", "C07"],
     "indi/device/events.py": ["C01"],
+    "indi/message/pings.py": ["C05", "C04"],
+    "indi/message/checks.py": ["C03", "C12"],
     "indi/device/properties/instance/vectors.py": ["C14"],
     "indi/device/properties/definition/elements.py": ["C06", "C14"],
     "indi/client/vectors.py": ["C08"],
